@@ -112,6 +112,9 @@ func checkC18(p *Prog, r *Report) {
 	r.OK("C18/NO-SHARED-WRITES", "session call tree scanned", "-", fmt.Sprintf("%d stores/map updates in %d functions", nStores, len(funcs)))
 	r.Info("C18/NO-SHARED-WRITES scanned %d stores in %d functions [%s]", nStores, len(funcs), p.Config)
 
+	r.Rule("C18/SHARED-STATE-USE", "the only package-level variables of the module that session-reachable code references are those of a reviewed allow-table (once-guards, read-only tables, start-up constants); no pools, caches or counters shared between sessions", 3)
+	checkSharedStateUse(p, r, "C18/SHARED-STATE-USE", funcs)
+
 	// ---- PER-SESSION-STATE ----
 	r.Rule("C18/PER-SESSION-STATE", "session objects (receiver.Transfer, sender.Transfer, rsyncwire.Conn, rsyncopts.Options, rsyncopts.Context) are allocated inside the session's call tree; no reachable function loads a pointer to one from a package-level variable or a server-wide struct", 5)
 	sessTypes := map[string]bool{pkgReceiver + ".Transfer": true, pkgSender + ".Transfer": true, pkgWire + ".Conn": true, pkgOpts + ".Options": true, pkgOpts + ".Context": true}
@@ -384,5 +387,54 @@ func checkJoinAndWaitFor(p *Prog, r *Report) {
 			})
 		}
 		r.Cond(n == 2, rule2, "Do: both goroutine bodies go through waitFor", p.Pos(do.Pos()), fmt.Sprintf("%d of 2", n))
+	}
+}
+
+// sharedStateAllow: package-level variables of the module that session code
+// may reference, each with the reason it cannot carry data from one session
+// into another.
+var sharedStateAllow = map[string]string{
+	"rsync/internal/sender.lookupOnce":              "sync.Once guarding a log line",
+	"rsync/internal/sender.lookupGroupOnce":         "sync.Once guarding a log line",
+	"rsync/internal/receiver.amRoot":                "computed once at start-up, read-only",
+	"rsync/internal/receiver.inGroup":               "computed once at start-up, read-only",
+	"rsync/internal/rsyncopts.errNotYetImplemented": "immutable sentinel error",
+	"rsync/internal/rsyncopts.infoWords":            "read-only table",
+	"rsync/internal/rsyncopts.debugWords":           "read-only table",
+	"rsync/internal/rsyncopts.tridgeDefaults":       "read-only defaults, copied by value",
+	"rsync/internal/rsyncopts.gokrazyDefaults":      "read-only defaults, copied by value",
+	"rsync/internal/maincmd.errIsParent":            "immutable sentinel error",
+	"rsync/internal/restrict.ExtraHook":             "test hook, set before serving",
+}
+
+// checkSharedStateUse: every module-level variable referenced by the given
+// functions must be in the allow table; a new one (a pool, a cache, a
+// counter) is state that can leak between sessions.
+func checkSharedStateUse(p *Prog, r *Report, rule string, funcs []*ssa.Function) {
+	seen := map[string]bool{}
+	for _, fn := range funcs {
+		if fn.Name() == "init" || strings.HasPrefix(fn.Name(), "init#") {
+			continue
+		}
+		for _, b := range fn.Blocks {
+			for _, in := range b.Instrs {
+				for _, op := range in.Operands(nil) {
+					gl, ok := (*op).(*ssa.Global)
+					if !ok || gl.Pkg == nil || !isModPath(gl.Pkg.Pkg.Path()) || isTestSupport(gl.Pkg.Pkg.Path()) {
+						continue
+					}
+					name := shortKey(gl.Pkg.Pkg.Path()) + "." + gl.Name()
+					if strings.HasPrefix(gl.Name(), "init$guard") || seen[name] {
+						continue
+					}
+					seen[name] = true
+					if why, ok := sharedStateAllow[name]; ok {
+						r.OK(rule, "uses package-level "+name, p.Pos(instrPos(in)), why)
+					} else {
+						r.Bad(rule, "uses package-level "+name, p.Pos(instrPos(in)), "session-reachable code ("+funcKey(fn)+") uses process-wide state that is not in the reviewed allow-table: data or decisions can carry over from one session to another")
+					}
+				}
+			}
+		}
 	}
 }
